@@ -53,6 +53,94 @@ def isNil : Code → Bool
   | .nilc => true
   | _ => false
 
+/-- the three things a render method reaches through an interface or another component:
+    `c.isNull(f)`, `c.render(f, w, ctx)` (bytes so far in, bytes so far and File state out; `none` =
+    an error was returned) and `f.register(path)` -/
+structure Rec where
+  null : FileS → Code → Bool
+  render : FileS → Str → Option Code → Code → Option (Str × FileS)
+  register : FileS → Str → Str × FileS
+
+/-- `for … range xs { … }` whose body may return an error: stops at the first `none` -/
+def foldOpt {σ α} (step : σ → α → Option σ) : σ → List α → Option σ
+  | s, [] => some s
+  | s, x :: xs => match step s x with
+    | none => none
+    | some s' => foldOpt step s' xs
+
+/-- `_, ok := c.(token)`: jennifer's `token` type covers the model's `.tok` and `.lit` -/
+def isToken : Code → Bool
+  | .tok _ _ => true
+  | .lit _ => true
+  | _ => false
+
+def tokTyp : Code → TokTyp
+  | .tok .pkg _ => .packageToken
+  | .tok .ident _ => .identifierToken
+  | .tok .kw _ => .keywordToken
+  | .tok .op _ => .operatorToken
+  | .tok .delim _ => .delimiterToken
+  | .tok .layout _ => .layoutToken
+  | .tok .null _ => .nullToken
+  | .lit (.rune _) => .literalRuneToken
+  | .lit (.byte _) => .literalByteToken
+  | _ => .literalToken
+
+/-- `t.content.(string)` (only asked of package tokens) -/
+def tokContent : Code → Str
+  | .tok _ s => s
+  | .lit (.str s) => s
+  | _ => []
+
+/-- `t.content == "lit"`: true iff the content is a string equal to it (the null token's content
+    is nil in Go and the empty string in the model: never equal to a non-empty literal) -/
+def tokContentIs : Code → Str → Bool
+  | .tok _ s, l => s == l
+  | .lit (.str s), l => s == l
+  | _, _ => false
+
+def isGroup : Code → Bool
+  | .group _ _ => true
+  | _ => false
+
+def groupInfo : Code → GInfo
+  | .group g _ => g
+  | _ => default
+
+def groupItems : Code → List Code
+  | .group _ items => items
+  | _ => []
+
+def isDict : Code → Bool
+  | .dict _ => true
+  | _ => false
+
+/-- the same questions asked of `s.previous(g)` (nil when there is no previous item) -/
+def isTokenO : Option Code → Bool
+  | some c => isToken c
+  | none => false
+def tokTypO : Option Code → TokTyp
+  | some c => tokTyp c
+  | none => .literalToken
+def tokContentO : Option Code → Str
+  | some c => tokContent c
+  | none => []
+def tokContentIsO : Option Code → Str → Bool
+  | some c, l => tokContentIs c l
+  | none, _ => false
+def isGroupO : Option Code → Bool
+  | some c => isGroup c
+  | none => false
+def groupInfoO : Option Code → GInfo
+  | some c => groupInfo c
+  | none => default
+def groupItemsO : Option Code → List Code
+  | some c => groupItems c
+  | none => []
+def isDictO : Option Code → Bool
+  | some c => isDict c
+  | none => false
+
 /-- `sort.Strings` (bytewise order) -/
 def sortStrings (l : List Str) : List Str := l.mergeSort Str.le
 
